@@ -717,22 +717,24 @@ def P26(m, R):
     n_sites = 0
     for fname in ('remove_formatting', '__iadd__', 'apply_formatting', '__getitem__'):
         f = m.fn('AnsiString.' + fname)
+        from ..shapes import local_aliases, canon
+        al = local_aliases(f)
         prov = {}     # index name -> searched list text
         pairs = {}    # name of pair list -> (find_list, in_list)
         parallel = {}  # list name -> list it is parallel to (same slice bounds)
         for n in f.walk():
             if isinstance(n, ast.Assign) and isinstance(n.targets[0], ast.Name) and isinstance(n.value, ast.Call):
                 if call_name(n.value) == ro.IDFIND1 and len(n.value.args) == 2:
-                    prov[n.targets[0].id] = norm(n.value.args[1])
+                    prov[n.targets[0].id] = canon(n.value.args[1], al)
                 elif call_name(n.value) == ro.IDFINDN and len(n.value.args) == 2:
-                    pairs[n.targets[0].id] = (norm(n.value.args[0]), norm(n.value.args[1]))
+                    pairs[n.targets[0].id] = (canon(n.value.args[0], al), canon(n.value.args[1], al))
         # copies / parallel lists: X = list(Y), X = Y[a:b] and Z = W[a:b] with the same bounds where W relates to Y
         slices = {}
         for n in f.walk():
             if isinstance(n, ast.Assign) and isinstance(n.targets[0], ast.Name):
                 v = n.value
                 if isinstance(v, ast.Subscript) and isinstance(v.slice, ast.Slice):
-                    slices[n.targets[0].id] = (norm(v.value), norm(v.slice))
+                    slices[n.targets[0].id] = (canon(v.value, al), canon(v.slice, al))
                 elif isinstance(v, ast.Attribute):
                     slices.setdefault(n.targets[0].id, (norm(v), '[whole]'))
         for lp in [n for n in f.walk() if isinstance(n, ast.For)]:
@@ -754,7 +756,7 @@ def P26(m, R):
                 if k not in prov:
                     continue
                 n_sites += 1
-                used_on = norm(sub.value)
+                used_on = canon(sub.value, al)
                 src = prov[k]
                 cons = '%s: %s[%s]' % (fname, used_on, k)
                 ok = used_on == src
@@ -773,9 +775,12 @@ def P26(m, R):
                         ok = True
                     # x[key].rem where the searched list was `settings.rem` copied into x[key] (list(settings.rem)) in the same block
                     if not ok:
+                        raw_used = norm(sub.value)
                         for a in f.walk():
                             if isinstance(a, ast.Assign) and isinstance(a.value, ast.Call) and call_name(a.value) == ro.POINT:
                                 tgt = norm(a.targets[0])
+                                if raw_used.startswith(tgt + '.') and any(src in norm(x_) for x_ in a.value.args):
+                                    ok = True
                                 args = [norm(x) for x in a.value.args]
                                 if used_on.startswith(tgt + '.') and any(src in x for x in args):
                                     ok = True
